@@ -133,8 +133,47 @@ pub fn run(tier: Tier, seed: u64) -> i32 {
             let text = text(&prog);
             let tc = load(&text, &sigs, DEFAULT_BUDGET);
             // plan 0: fault-free; plans 1..=5: the call of row p-1 fails and the caller carries on
-            for plan in 0..9usize {
-                let script: Vec<Step> = (0..11).map(|c| if plan > 0 && c == plan { Step::Fault(7) } else { Step::Ans(answer.clone()) }).collect();
+            // the defaults in force are those the test holds when it is run: `TestCase::signals` is a public
+            // field, here every input-capable signal's default is edited after loading (every fifth list)
+            if li % 5 == 0 {
+                if let Ok(tc0) = &tc {
+                    let mut tc2 = tc0.clone();
+                    let mut sigs2 = sigs.clone();
+                    for (k, (s2, real)) in sigs2.iter_mut().zip(tc2.signals.iter_mut()).enumerate() {
+                        let nv = if k % 2 == 0 { V::Num(3 + k as i64) } else { V::Z };
+                        match &mut real.typ {
+                            digital_test_runner::SignalType::Input { default } => {
+                                *default = match nv { V::Num(n) => digital_test_runner::InputValue::Value(n), _ => digital_test_runner::InputValue::Z };
+                                s2.kind = Kind::In(nv);
+                            }
+                            digital_test_runner::SignalType::Bidirectional { default } => {
+                                *default = match nv { V::Num(n) => digital_test_runner::InputValue::Value(n), _ => digital_test_runner::InputValue::Z };
+                                s2.kind = Kind::Bidir(nv);
+                            }
+                            _ => {}
+                        }
+                    }
+                    let script: Vec<Step> = vec![Step::Ans(answer.clone()); 11];
+                    let mut opts = RunOpts::new(11);
+                    opts.continue_after_error = true;
+                    let obs2 = run_loaded(&tc2, &sigs2, true, &script, &opts);
+                    let r2 = ref_run(&prog, &sigs2, &script);
+                    st.witness("defaults_edited_after_loading");
+                    let proj = Proj { input_values: true, expected: true, output: false, checked_kind: true, lines: false, vars: false, verdicts: false };
+                    if let Some((_, m)) = run_mismatch(&r2, &obs2, proj, None) {
+                        let summary = format!("signals: {}\nthe defaults of the loaded test's signals are edited to: {}\nprogram:\n{text}first difference at {m}", sigs.iter().map(|s| s.show()).collect::<Vec<_>>().join(", "), sigs2.iter().map(|s| s.show()).collect::<Vec<_>>().join(", "));
+                        st.violation(&format!("{} (defaults edited after loading)", classify(&m)), li, summary, || dyn_replay(&text, &sigs2, true, &script, &opts, ref_items_brief(&r2), &obs2, &m));
+                    }
+                }
+            }
+            // plan 9: no fault, but the driver reports only the outputs that have a column in the header
+            // (an output it leaves out and the header omits is still an entry of every checked row: X ~ X)
+            let reported: Answer = answer.iter().filter(|(n, _)| header.contains(n) || header.contains(&format!("{n}_out"))).cloned().collect();
+            for plan in 0..10usize {
+                if plan == 9 && reported.len() == answer.len() {
+                    continue;
+                }
+                let script: Vec<Step> = (0..11).map(|c| if plan == 9 { Step::Ans(reported.clone()) } else if plan > 0 && c == plan { Step::Fault(7) } else { Step::Ans(answer.clone()) }).collect();
                 st.evals += 1;
                 let mut opts = RunOpts::new(11);
                 opts.after_end = 0;
@@ -178,7 +217,10 @@ pub fn run(tier: Tier, seed: u64) -> i32 {
                     st.witness("driver_fault_then_continue");
                 }
                 let mut mism: Option<String> = None;
-                if plan == 0 {
+                if plan == 9 {
+                    st.witness("driver_reports_only_the_outputs_of_the_header");
+                }
+                if plan == 0 || plan == 9 {
                     let r = ref_run(&prog, &sigs, &script);
                     let proj = Proj { input_values: true, expected: true, output: false, checked_kind: true, lines: false, vars: false, verdicts: false };
                     mism = run_mismatch(&r, &obs, proj, None).map(|x| x.1);
@@ -247,6 +289,8 @@ pub fn run(tier: Tier, seed: u64) -> i32 {
             "three_hundred_signals",
             "virtual_signal_with_a_header_column",
             "virtual_signal_without_a_header_column",
+            "driver_reports_only_the_outputs_of_the_header",
+            "defaults_edited_after_loading",
         ],
         exhaustive_note: "all signal lists and headers within the stated bounds".into(),
         e1: false,
